@@ -127,9 +127,10 @@ PROPS = {
         harnesses=[
             dict(run=B + "VerifC04Resolve", name="C04_sequencer", quick=dict(ops=0, val9=0, preempt=1, faults=0, sequencer=1), thorough=dict(ops=0, val9=0, preempt=1, faults=1, sequencer=1), covers=["request-error", "done"]),
             dict(run=B + "VerifC04Resolve", name="C04_faults", quick=dict(ops=0, val9=0, preempt=1, faults=1, sequencer=0), thorough=dict(ops=0, val9=0, preempt=2, faults=1, sequencer=0), covers=["storage-fault", "request-error", "done"]),
+            dict(run=B + "VerifC04Resolve", name="C04_cancel", quick=dict(ops=1, val9=0, preempt=1, faults=0, sequencer=1, cancels=1, clients=1), thorough=dict(ops=1, val9=0, preempt=2, faults=0, sequencer=1, cancels=1, clients=2), covers=["client-gone", "done"]),
         ],
-        bounds=dict(quick="2 concurrent requests of any kind on 1 key with unconstrained expected revisions (incl. far-future / 'negative'), the sequencer thread taking part in the schedule exploration (<= 1 preemption), and, separately, one storage fault (error / unknown-applied / unknown-lost) on any commit",
-                    thorough="the sequencer in the schedule together with one storage fault; 2 scheduling deviations with one fault"),
+        bounds=dict(quick="2 concurrent requests of any kind on 1 key with unconstrained expected revisions (incl. far-future / 'negative'), the sequencer thread taking part in the schedule exploration (<= 1 preemption), and, separately, one storage fault (error / unknown-applied / unknown-lost) on any commit; one request whose client goes away (context cancelled) at any moment of the request, sequencer in the schedule",
+                    thorough="the sequencer in the schedule together with one storage fault; 2 scheduling deviations with one fault; 2 requests one of whose clients goes away, 2 deviations"),
         outside="more than 2 concurrent requests; the retry loop firing during the requests (C09)",
     ),
     "C06": dict(
